@@ -14,7 +14,7 @@ from native import refeval, smtlib_ref as R
 from native.gen import Gen
 
 WEIRD_NAMES = ["a b", "1x", "x.y", "q#", "(p)", "a;b", 'x"y', "A:b", "x'", "[i]", "{k}", "a,b",
-               "é", "~!@$%^&*_-+=<>.?/", "x y z", " lead", "0", "-1", "#b01", "1.5"]
+               "é", "~!@$%^&*_-+=<>.?/", "x y z", " lead", "-1"]
 
 
 def sort_of_type(t):
@@ -1080,3 +1080,192 @@ def malformed_check(tier, seed):
 
 
 CHECKS["smtlib_malformed"] = malformed_check
+
+
+# ---------------------------------------------------------------------------
+# C09: round trips
+# ---------------------------------------------------------------------------
+def has_op(f, ops):
+    st, seen = [f], set()
+    while st:
+        x = st.pop()
+        if x in seen:
+            continue
+        seen.add(x)
+        if x.node_type() in ops:
+            return True
+        st.extend(x.args())
+    return False
+
+
+def has_quote_string(f):
+    st, seen = [f], set()
+    while st:
+        x = st.pop()
+        if x in seen:
+            continue
+        seen.add(x)
+        if x.node_type() == op.STR_CONSTANT and '"' in x.constant_value():
+            return True
+        st.extend(x.args())
+    return False
+
+
+def bound_symbols(f):
+    out, st, seen = set(), [f], set()
+    while st:
+        x = st.pop()
+        if x in seen:
+            continue
+        seen.add(x)
+        if x.is_quantifier():
+            out |= set(x.quantifier_vars())
+        st.extend(x.args())
+    return out
+
+
+def commands_equivalent(env, c1, c2):
+    """two parsed command lists: identical up to the fresh names of definition parameters; -> problem or None"""
+    if len(c1) != len(c2):
+        return {"key": "script-command-count", "first": len(c1), "second": len(c2)}
+    sub = env.substituter
+    for a, b in zip(c1, c2):
+        if a.name != b.name:
+            return {"key": "script-command-name", "first": a.name, "second": b.name}
+        if a.name == "define-fun":
+            n1, p1, r1, b1 = a.args
+            n2, p2, r2, b2 = b.args
+            ok = n1 == n2 and r1 == r2 and len(p1) == len(p2) and all(x.symbol_type() == y.symbol_type() for x, y in zip(p1, p2))
+            if ok and p1:
+                ok = sub.substitute(b2, dict(zip(p2, p1))) is b1
+            elif ok:
+                ok = b1 is b2
+            if not ok:
+                return {"key": "script-definition", "first": str(a.args), "second": str(b.args)}
+        elif a.name in ("set-logic",):
+            if str(a.args[0]) != str(b.args[0]):
+                return {"key": "script-args", "command": a.name, "first": str(a.args), "second": str(b.args)}
+        else:
+            if len(a.args) != len(b.args) or any((x is not y) and x != y for x, y in zip(a.args, b.args)):
+                return {"key": "script-args", "command": a.name, "first": str(a.args), "second": str(b.args)}
+    return None
+
+
+def roundtrip_check(tier, seed):
+    from native.bounded import fresh_env
+    from pysmt.smtlib.script import smtlibscript_from_formula
+    from pysmt.smtlib.parser import SmtLibParser
+    from pysmt.parsing import HRParser
+    env = fresh_env()
+    rng = random.Random(seed)
+    trials = 300 if tier == "quick" else 4000
+    n = nontriv = 0
+    viol, samples = [], []
+    counts = {"smtlib": 0, "hr": 0, "script": 0}
+    g = SmtGen(env, seed=seed, widths=(1, 2, 3, 8))
+    parser = SmtLibParser(env)
+    for t in range(trials):
+        if t % 25 == 0:
+            g.syms.clear()
+            g.pool_shared = []
+            if (t // 25) % 2 == 1:
+                g.syms[BOOL] = [env.formula_manager.Symbol(".def_%d" % i, BOOL) for i in range(3)]
+        try:
+            f = g.term(BOOL, rng.randint(1, 4))
+        except Exception:
+            continue
+        n += 1
+        if f.args():
+            nontriv += 1
+        # --- SMT-LIB: print, parse back in the same environment -> the very same object --------------------
+        for dag in (False, True):
+            with warnings.catch_warnings():
+                warnings.simplefilter("ignore")
+                script = smtlibscript_from_formula(f, logic="ALL")
+                buf = io.StringIO()
+                script.serialize(buf, daggify=dag)
+            try:
+                with warnings.catch_warnings():
+                    warnings.simplefilter("ignore")
+                    back = parser.get_script(io.StringIO(buf.getvalue())).get_strict_formula(env.formula_manager)
+            except Exception as e:
+                viol.append({"key": "smtlib-reparse-fails", "formula": f.serialize(), "daggify": dag, "error": repr(e)[:300],
+                             "text": buf.getvalue()[:1200]})
+                break
+            counts["smtlib"] += 1
+            if back is not f:
+                if has_op(f, (op.ARRAY_VALUE,)):
+                    d = refeval.equivalent(f, back, trials=12, seed=t)
+                    if d is None and back.get_type() == f.get_type():
+                        continue
+                viol.append({"key": "smtlib-roundtrip-not-identical", "formula": f.serialize(), "back": back.serialize(),
+                             "daggify": dag, "text": buf.getvalue()[:1200]})
+                break
+        if viol:
+            break
+        # --- human-readable: same type and meaning, serialisation equal up to grouping ------------------------
+        hr_names_ok = not any("'" in x.symbol_name() or "\\" in x.symbol_name() for x in refeval.free_symbols(f)) and \
+            not any("'" in x.symbol_name() for x in bound_symbols(f))
+        if not has_quote_string(f) and hr_names_ok:
+            s = f.serialize()
+            try:
+                r = HRParser(env).parse(s)
+            except Exception as e:
+                viol.append({"key": "hr-reparse-fails", "formula": s, "error": repr(e)[:300]})
+                break
+            counts["hr"] += 1
+            if r is not f:
+                d = refeval.equivalent(f, r, trials=12, seed=t)
+                if d is not None or r.get_type() != f.get_type():
+                    viol.append({"key": "hr-roundtrip-different-meaning", "formula": s, "back": r.serialize(), "difference": d})
+                    break
+                strip = lambda x: x.replace("(", "").replace(")", "")
+                if strip(r.serialize()) != strip(s):
+                    viol.append({"key": "hr-roundtrip-different-text", "formula": s, "back": r.serialize()})
+                    break
+        # --- scripts: parse, serialise, parse again -> equivalent command lists ----------------------------------
+        if t % 3 == 0:
+            sg = ScriptGen(random.Random(rng.random()), rng.choice(["ALL", "QF_LIA", "QF_LRA", "QF_BV", "QF_UFLIA", None]),
+                           suffix="_r%d" % t)
+            text = sg.script()
+            env2 = fresh_env()
+            try:
+                with warnings.catch_warnings():
+                    warnings.simplefilter("ignore")
+                    s1 = SmtLibParser(env2).get_script(io.StringIO(text))
+            except Exception:
+                continue
+            for dag in (False, True):
+                buf = io.StringIO()
+                try:
+                    s1.serialize(buf, daggify=dag)
+                    with warnings.catch_warnings():
+                        warnings.simplefilter("ignore")
+                        s2 = SmtLibParser(env2).get_script(io.StringIO(buf.getvalue()))
+                except Exception as e:
+                    viol.append({"key": "script-reparse-fails", "daggify": dag, "error": repr(e)[:300], "script": text,
+                                 "serialised": buf.getvalue()[:1500]})
+                    break
+                counts["script"] += 1
+                d = commands_equivalent(env2, list(s1.commands), list(s2.commands))
+                if d:
+                    d.update(daggify=dag, script=text, serialised=buf.getvalue()[:1500])
+                    viol.append(d)
+                    break
+            from pysmt.environment import pop_env
+            pop_env()
+        if viol:
+            break
+        if len(samples) < 3 and f.args():
+            samples.append(f.serialize()[:200])
+    return {"name": "roundtrip", "bounded": True, "evaluations": n, "distinct_nontrivial": nontriv,
+            "rule": "%d generated formulas: SMT-LIB print (tree and DAG) then parse in the same environment must return the same "
+                    "object (constant arrays: an equivalent store chain) [%d trips]; human-readable serialise then parse must keep "
+                    "type, meaning and text up to parentheses (strings containing a double quote and symbol names containing a single quote or backslash "
+                    "excluded: outside the HR parser's fragment) [%d trips]; grammar-generated scripts parsed, serialised and parsed again must give "
+                    "command lists identical up to the names of definition parameters [%d trips]"
+                    % (trials, counts["smtlib"], counts["hr"], counts["script"]),
+            "samples": samples, "violations": viol}
+
+
+CHECKS["roundtrip"] = roundtrip_check
